@@ -181,6 +181,57 @@ func checkC16(c *Check) {
 		}
 		c.Expect("4/closed-channel-fatal", 3)
 	}
+
+	// ---------- 5: the launched child sees the controller's death as end-of-file ----------
+	// the child closes its copy of the parent's end of the sync socket in every configuration, before its first
+	// blocking read; otherwise the read never ends when the controller dies inside the callback
+	if r, err := buildE1(p); err != nil {
+		c.Undecided("5/child-sees-eof", "pkg/forkexec", "-", err.Error())
+	} else {
+		var closes, reads []*e1Event
+		for _, e := range r.Events {
+			switch e.Name {
+			case "close":
+				if isSyncChannelPeer(e.arg(0), r.Child) {
+					closes = append(closes, e)
+				}
+			case "read":
+				reads = append(reads, e)
+			}
+		}
+		all := fFalse
+		for _, e := range closes {
+			all = fOr(all, e.Guard)
+		}
+		okAll, _, _ := Valid(all)
+		pos := p.Pos(r.Child.Pos())
+		if len(closes) > 0 {
+			pos = p.Pos(closes[0].Call.Pos())
+		}
+		c.Cond(len(closes) > 0 && okAll, "5/child-sees-eof", "forkexec.child:closes-parent-end", pos, "the child closes the parent's end of the sync socket in every configuration",
+			"the child closes the parent's end of the sync socket only under "+all.String()+": in the other configurations it holds that end open itself, never sees end-of-file and stays blocked (root, before seccomp and exec) when the controller dies")
+		okBefore := len(closes) > 0
+		for _, rd := range reads {
+			before := false
+			for _, cl := range closes {
+				if evBeforeE1(cl, rd) {
+					if v, _, _ := Valid(fImp(rd.Guard, cl.Guard)); v {
+						before = true
+					}
+				}
+			}
+			if !before {
+				okBefore = false
+			}
+		}
+		c.Cond(okBefore, "5/child-sees-eof", "forkexec.child:close-before-reads", pos, "every blocking read of the child comes after that close", "a blocking read of the child is not preceded by the close of the parent's end")
+	}
+	c.Expect("5/child-sees-eof", 2)
+
+	// ---------- 6: nothing about one trace outlives it ----------
+	checkNoSharedState(c, "6/no-shared-state", func(path string) bool {
+		return strings.HasSuffix(path, "/ptracer") || strings.HasSuffix(path, "/pkg/forkexec") || strings.HasSuffix(path, "/runner/ptrace")
+	}, 3)
 }
 
 // closesDoneOnce: the function closes a channel field inside a sync.Once.Do closure.
@@ -328,4 +379,10 @@ func shortChans(cs []string) []string {
 		out = append(out, s)
 	}
 	return out
+}
+
+// isSyncChannelPeer: v is element 0 of the socket pair whose element 1 the child uses as its sync channel.
+func isSyncChannelPeer(v ssa.Value, child *ssa.Function) bool {
+	d := describe(stripConv(v))
+	return strings.HasSuffix(d, "[0]") && !strings.Contains(d, "Files")
 }
